@@ -37,6 +37,7 @@ package rlpx
 //@   ensures err == nil ==> (forall k int :: 0 <= k && k < n ==> out[k] == bufAt(b, old(len(b.data)) + k))
 //@   ensures err == nil ==> (forall k int :: 0 <= k && k < old(b.end) ==> bufAt(b, k) == old(bufAt(b, k)))
 //@   ensures err == nil ==> b.end >= old(b.end)
+//@   ensures old(b.end) - old(len(b.data)) >= n ==> err == nil
 //@   modifies b.data, b.end, b.data[..]
 
 //@ func (b *writeBuffer) reset()
@@ -66,7 +67,7 @@ package rlpx
 
 //@ func putUint24(v uint32, b []byte)
 //@   serves C44
-//@   requires len(b) >= 3
+//@   requires len(b) >= 3 && v < 16777216
 //@   ensures b[0] == (v / 65536) % 256 && b[1] == (v / 256) % 256 && b[2] == v % 256
 //@   ensures forall k int :: 3 <= k && k < len(b) ==> b[k] == old(b[k])
 //@   modifies b[0:3]
@@ -89,3 +90,26 @@ func verifLemmaUint24RoundTrip(v uint32, b []byte) (r uint32) {
 //@   ensures len(out) >= wantLength
 //@   ensures len(b) >= wantLength ==> out == b
 //@   ensures len(b) < wantLength && cap(b) >= wantLength ==> len(out) == cap(b) && (forall k int :: 0 <= k && k < len(b) ==> out[k] == b[k])
+
+// ---- frames
+
+// writeFrame refuses messages whose size does not fit the 24-bit header field (it never writes a
+// truncated size: putUint24 requires v < 2^24 at its call site), and all its buffer arithmetic
+// stays in range whatever the ciphers and MACs (havocked) produce.
+//@ func (h *sessionState) writeFrame(conn io.Writer, code uint64, data []byte) (err error)
+//@   serves C44
+//@   requires len(zeroHeader) == 3
+//@   modifies *h, typeof []byte
+//@   ensures ite(code < 128, 1, 1 + rlp.isz(code)) + len(data) > 16777215 ==> err == errPlainMessageTooLarge
+//@   mutates
+
+// readFrame: every slice expression stays in range for any header bytes the peer sends; the
+// returned frame is never longer than the 24-bit size field allows.
+//@ func (h *sessionState) readFrame(conn io.Reader) (out []byte, err error)
+//@   serves C44
+//@   requires bufInv(&h.rbuf)
+//@   modifies *h, typeof []byte
+//@   ensures err == nil ==> len(out) <= 16777215
+//@   atcall Equal#1 requires len(arg2) == 16
+//@   atcall Equal#2 requires len(arg2) == 16
+//@   mutates
